@@ -166,6 +166,19 @@ func idDefect(id string) string {
 	return "bad-char"
 }
 
+// emptyShape refines the key of an empty identifier by the shape of the offending name, so that the
+// two known causes (unquoted names without any letter or digit such as _, __, _-_; empty quoted names)
+// stay apart from anything new.
+func emptyShape(name string) string {
+	switch {
+	case name == "''" || name == `""`:
+		return "empty-quotes"
+	case strings.Trim(name, "_-") == "":
+		return "no-alnum"
+	}
+	return "other"
+}
+
 // checkProduce runs oracle A on one spelling; returns key, message.
 func checkProduce(sp spelling) (string, string) {
 	quoted := "unquoted"
@@ -180,7 +193,7 @@ func checkProduce(sp spelling) (string, string) {
 		if d := idDefect(id); d != "" {
 			key := "invalid-id:produce:" + quoted + ":" + d
 			if d == "empty" {
-				key = "empty-id:produce:" + quoted
+				key = "empty-id:produce:" + emptyShape(sp.Text)
 			}
 			return key, fmt.Sprintf("ident.Produce(%q, %s) = %q is not a valid identifier (%s)", sp.Text, st.name, id, d)
 		}
@@ -304,7 +317,7 @@ func checkCompile(decls []decl) (key, what, outcome string) {
 		if d := idDefect(s.ID); d != "" {
 			key := "invalid-id:" + kindOf(s) + ":" + d
 			if d == "empty" {
-				key = "empty-id:" + kindOf(s)
+				key = "empty-id:" + kindOf(s) + ":" + emptyShape(s.Name)
 			}
 			return key, fmt.Sprintf("%s %s gets the identifier %q (%s) and Compile reports no error; grammar:\n%s", kindOf(s), s.Name, s.ID, d, text), "ok"
 		}
